@@ -90,3 +90,55 @@ def run(prop, tier, seed, replay=None):
         import p_metadata
         p_metadata.crash_probe(v, prop, tier, seed)
     return v.finish()
+
+
+def metadata_probe(v, prop, tier, seed, scen=None):
+    """For C12: the peer-side handlers while the metadata is unknown - extended handshakes and ut_metadata messages of every
+    class of PeerFsm.tla - with every message the peers write serialised; crashes only."""
+    rng = random.Random(seed + 77)
+    if scen is None:
+        r = run_tlc("MCPeerFsm", "PeerFsm_edges.cfg", workers=1, timeout=900)
+        require_ok(r, "PeerFsm edge dump (metadata probe)")
+        g = Graph.from_result(r, lambda s: s["outcome"] == "-")
+        os.unlink(r.outfile)
+        walks, _ = g.covering_walks(rng, maxlen=6)
+        walks += g.random_walks(rng, 800 if tier == "quick" else 10000, maxlen=8)
+        scen = []
+        for w in walks:
+            sc = g.scenario(w, "")
+            if sc["init"]["infoKnown"]:
+                continue
+            if not any(st["a"].get("k") in ("Ext0", "Metadata") for st in sc["steps"]):
+                continue
+            sc["binding"] = "peerfsm"
+            scen.append(sc)
+        rng.shuffle(scen)
+        scen = scen[:1500 if tier == "quick" else 20000]
+        for i, sc in enumerate(scen):
+            sc["id"] = i
+    vh = vlib.build_harness()
+    wd = vlib.scratch("fsmp-")
+    sf, rf = os.path.join(wd, "scen.ndjson"), os.path.join(wd, "res.ndjson")
+    with open(sf, "w") as f:
+        for sc in scen:
+            f.write(json.dumps(sc, separators=(",", ":")) + "\n")
+    out, err = vlib.run_harness(vh, ["peerfsm", "-in", sf, "-out", rf, "-parallel", "6", "-timeout", "60"], timeout=7200)
+    log(out.strip())
+    for line in open(rf):
+        res = json.loads(line)
+        sc = scen[res["index"]]
+        msgs = [s["a"] for s in sc["steps"]]
+        if res.get("crash"):
+            st = res.get("stderr", "")
+            first = [x for x in st.splitlines() if x.startswith(("panic", "fatal", "runtime:"))][:2]
+            v.violation("peer-side-crash", "the process crashed while handling %s before the metadata is known: %s" % (json.dumps(msgs)[:300], first), sc)
+            continue
+        if res.get("hang"):
+            continue
+        o = res["out"]
+        for vi in o.get("violations") or []:
+            if vi["key"].startswith(("writer-panic", "handler-panic")):
+                v.violation("peer-side-panic", vi["what"], sc)
+    v.cov["peer_side_metadata"] = {"sequences": len(scen), "rule": "message sequences of PeerFsm.tla that contain an extended handshake or a ut_metadata message, "
+                                   "metadata unknown, real peer and torrent handlers, written messages serialised; panics only"}
+    return len(scen)
